@@ -15,7 +15,7 @@ pub fn def() -> PropertyDef {
     PropertyDef {
         id: "C06",
         level: "exploration",
-        props: |_| vec![Box::new(MlsaSpectrum) as Box<dyn DynProp>],
+        props: |_| vec![Box::new(MlsaSpectrum) as Box<dyn DynProp>, Box::new(MlsaAfterHistory) as Box<dyn DynProp>],
         extra: no_extra,
         replay_custom: no_custom,
         assumptions: &[
@@ -33,6 +33,8 @@ pub struct Case {
     pub target_shape: f64,
     pub cepstrum: Vec<f64>,
     pub gain_shift: f64,
+    /// linear output gain of the vocoder during the measurement (the response is divided by it)
+    pub volume: f64,
 }
 
 pub const RATES: &[usize] = &[16000, 8000, 22050, 44100, 48000, 96000];
@@ -114,11 +116,15 @@ impl Prop for MlsaSpectrum {
         let target_shape = t.uniform(0.2, 2.0);
         let cepstrum = gen_cepstrum(t, len, alpha, target_shape);
         let gain_shift = if t.chance(0.5) { t.uniform(-6.0, 6.0) } else { t.uniform(-35.0, 6.0) };
-        Case { rate, alpha, target_shape, cepstrum, gain_shift }
+        let volume = if t.chance(0.6) { 1.0 } else { t.log_uniform(0.05, 20.0) };
+        Case { rate, alpha, target_shape, cepstrum, gain_shift, volume }
     }
     fn check(&self, c: &Case) -> Result<Report, Failure> {
         let tier_k = if std::env::var("VERIF_TIER").ok().as_deref() == Some("thorough") { 257 } else { 65 };
-        let m = measure_pulse(&c.cepstrum, 0, false, c.rate, c.alpha, 0.0, 1.0);
+        let mut m = measure_pulse(&c.cepstrum, 0, false, c.rate, c.alpha, 0.0, c.volume);
+        for v in m.frame1.iter_mut().chain(m.frame2.iter_mut()) {
+            *v /= c.volume;
+        }
         let model = |w: f64| mcep_logmag(&c.cepstrum, c.alpha, w);
         if !reference_decays(model, m.window.min(m.frame1.len())) {
             return Ok(Report::rejected("reference-not-decayed"));
@@ -150,7 +156,10 @@ impl Prop for MlsaSpectrum {
         let d = c.gain_shift;
         let mut shifted = c.cepstrum.clone();
         shifted[0] += d;
-        let m2 = measure_pulse(&shifted, 0, false, c.rate, c.alpha, 0.0, 1.0);
+        let mut m2 = measure_pulse(&shifted, 0, false, c.rate, c.alpha, 0.0, c.volume);
+        for v in m2.frame1.iter_mut() {
+            *v /= c.volume;
+        }
         let g = d.exp();
         let peak = m.frame1.iter().fold(0.0f64, |a, x| a.max(x.abs())) * g;
         let mut worst = 0.0f64;
@@ -166,10 +175,81 @@ impl Prop for MlsaSpectrum {
         );
         rep.nontrivial = c.target_shape >= 0.5;
         rep.class_if(c.cepstrum[0] < -10.0, "very-small-gain");
+        rep.class_if(c.volume != 1.0, "non-default-volume");
         rep.class_if(c.alpha == 0.0, "alpha=0");
         rep.class_if(c.cepstrum.len() <= 3, "len<=3");
         rep.class_if(c.cepstrum.len() >= 35, "len>=35");
         rep.class(format!("rate:{}", c.rate));
+        Ok(rep)
+    }
+}
+
+#[derive(Debug, Clone, Serialize)]
+pub struct HistCase {
+    pub rate: usize,
+    pub alpha: f64,
+    pub cepstrum: Vec<f64>,
+    pub mode: String,
+    pub history: Vec<Vec<f64>>,
+}
+
+/// The response must reflect the current frame's cepstrum whatever frames were rendered before.
+pub struct MlsaAfterHistory;
+
+impl Prop for MlsaAfterHistory {
+    type Case = HistCase;
+    fn name(&self) -> String {
+        "mlsa-after-history".into()
+    }
+    fn rule(&self) -> String {
+        "as mlsa-spectrum (rates 8k/16k, orders 2..24), but with frame period 1 and a generated history before the measured stationary cepstrum (none | a cepstrum differing only in a subset of coefficients | slow drift with per-frame steps 1e-9..1e-5); the log-magnitude of the response to the second pulse vs the model spectrum of the CURRENT cepstrum (0.01 neper). Non-trivial: a non-empty history".into()
+    }
+    fn tape_len(&self, _: Tier) -> usize {
+        200
+    }
+    fn cases(&self, tier: Tier) -> u32 {
+        tier.pick(1_000, 20_000)
+    }
+    fn decode(&self, t: &mut Tape, _: Tier) -> HistCase {
+        let rate = *t.pick(&[8000usize, 16000]);
+        let alpha = gen_alpha(t);
+        let len = t.urange(2, 24);
+        let target = t.uniform(0.2, 1.5);
+        let mut cepstrum = gen_cepstrum(t, len, alpha, target);
+        cepstrum[0] = t.uniform(-3.0, 3.0);
+        let (history, mode) = crate::dsp::gen_spectrum_history(t, &cepstrum, rate / 40, false);
+        HistCase { rate, alpha, cepstrum, mode, history }
+    }
+    fn check(&self, c: &HistCase) -> Result<Report, Failure> {
+        let k2 = c.rate / 20;
+        let window = k2 - 4;
+        let quiet = (k2 - c.history.len()).min(window);
+        let model = |w: f64| mcep_logmag(&c.cepstrum, c.alpha, w);
+        if !reference_decays(model, quiet) {
+            return Ok(Report::rejected("reference-not-decayed"));
+        }
+        let (h, _) = crate::dsp::measure_after_history(&c.history, &c.cepstrum, 0, false, c.rate, c.alpha, 0.0, window);
+        if let Some(i) = h.iter().position(|x| !x.is_finite()) {
+            fail!("mlsa-nonfinite", "non-finite sample at {} after a history", i);
+        }
+        let mut rep = Report::new();
+        let mut worst = (0.0f64, 0.0f64);
+        for k in 0..33 {
+            let w = PI * k as f64 / 32.0;
+            let e = (dft_logmag(&h, w) - model(w)).abs();
+            if e > worst.0 || e.is_nan() {
+                worst = (e, w);
+            }
+        }
+        rep.metric("max_logmag_error_neper", worst.0);
+        ensure!(
+            worst.0 <= 0.01,
+            "mlsa-history-dependence",
+            "after the history '{}' ({} frames) the pulse response deviates from the CURRENT frame's model spectrum by {:.4} neper at w={:.3} (alpha {}, order {})",
+            c.mode, c.history.len(), worst.0, worst.1, c.alpha, c.cepstrum.len() - 1
+        );
+        rep.nontrivial = !c.history.is_empty();
+        rep.class(format!("history:{}", c.mode.split(':').next().unwrap_or("")));
         Ok(rep)
     }
 }
